@@ -10,6 +10,8 @@ parts
   interval     : all (start, end) pairs over an alphabet of instants + None: construction, has_start/has_end,
                  start/end/duration raise exactly when unbounded, membership of every alphabet instant, ==/hash.
   yearmonth    : YearMonth.to_date_interval == the run of days carrying that (year, month) on the day-number line.
+  clones       : copy.copy / copy.deepcopy / pickle (protocols 2-5) of every interval, date interval and year-month built: the clone's
+                 complete observation set must equal the original's (a route the type rejects with TypeError is skipped and recorded).
   cross-calendar: histories inside one process - the same (y, m, d) field pairs asked in every calendar in which they are valid, in
                  several calendar orders; every answer against the day-number set of the calendar asked (catches state kept
                  between calls that forgets the calendar; per-calendar workers can never see that).
@@ -20,6 +22,7 @@ from pyoda_time import CalendarSystem, DateInterval, Duration, Instant, Interval
 
 from vf.core.evidence import Acc
 from vf.core.par import pmap
+from vf.models import cloneref as cr
 from vf.models import dateline as dl
 from vf.models import intervalref as ref
 
@@ -467,6 +470,121 @@ def _py_cross(steps, valid, name):
             "        assert len(DateInterval(a, b)) == n + 1, cid\n        assert Period.days_between(a, b) == n, cid\n" % (fa, fb, others + [cid]))
 
 
+# ----------------------------------------------------------------------------------------------- clone routes
+def _obs_interval(iv, objs, alpha):
+    o = {}
+    o["has_start"] = cr.observe(lambda: iv.has_start)
+    o["has_end"] = cr.observe(lambda: iv.has_end)
+    o["start"] = cr.observe(lambda: ins_ns(iv.start))
+    o["end"] = cr.observe(lambda: ins_ns(iv.end))
+    o["duration"] = cr.observe(lambda: iv.duration.to_nanoseconds())
+    o["iter"] = cr.observe(lambda: tuple(None if x is None else ins_ns(x) for x in iv))
+    o["contains"] = cr.observe(lambda: tuple((objs[t] in iv, iv.contains(objs[t])) for t in alpha))
+    o["hash"] = cr.observe(lambda: hash(iv))
+    o["repr"] = cr.observe(lambda: repr(iv))
+    return o
+
+
+def _obs_dateinterval(iv, days, partners):
+    o = {}
+    o["start"] = cr.observe(lambda: dl.ymd(iv.start))
+    o["end"] = cr.observe(lambda: dl.ymd(iv.end))
+    o["calendar"] = cr.observe(lambda: iv.calendar.id)
+    o["len"] = cr.observe(lambda: _len(iv))
+    o["iter"] = cr.observe(lambda: [dl.ymd(d) for d in iv])
+    o["contains"] = cr.observe(lambda: tuple((d in iv, iv.contains(d)) for d in days))
+    o["hash"] = cr.observe(lambda: hash(iv))
+    o["repr"] = cr.observe(lambda: repr(iv))
+    for i, p in enumerate(partners):
+        o["and-%d" % i] = cr.observe(lambda: (_describe(iv & p), _describe(p & iv), _describe(iv.intersection(p))))
+        o["or-%d" % i] = cr.observe(lambda: (_describe(iv | p), _describe(p | iv), _describe(iv.union(p))))
+        o["contains-interval-%d" % i] = cr.observe(lambda: (p in iv, iv in p, iv == p, p == iv))
+    return o
+
+
+def _compare_clones(acc, kind, shape, orig, obs_fn, case, unsupported):
+    """observe the original, then every clone: the observations, == and hash must be those of the original"""
+    base = obs_fn(orig)
+    acc.count(states=1)
+    for route, status, c in cr.clones(orig):
+        acc.count(transitions=1, evaluations=len(base) + 2)
+        K = "C18/clones/%s/%s/%%s/%s" % (kind, route.split("-")[0] if route.startswith("pickle") else route, shape)
+        if status == "unsupported":
+            unsupported.add("%s via %s: %s" % (kind, route, str(c)[:60]))
+            continue
+        if status == "raises":
+            acc.violation(K % ("raises-%s" % type(c).__name__), "%s of %s raised %s: %s" % (route, case, type(c).__name__, str(c)[:120]), dict(case, route=route))
+            continue
+        got = obs_fn(c)
+        diff = [k for k in base if got.get(k) != base[k]]
+        eq = cr.observe(lambda: (c == orig, orig == c, c != orig, hash(c) == hash(orig)))
+        if diff:
+            k = diff[0]
+            acc.violation(K % k.split("-")[0], "%s clone of %s: %s is %r, the original's is %r (differing observations: %s)" % (route, case, k, got.get(k), base[k], diff[:8]), dict(case, route=route),
+                          py=_py_clone(kind, route, case))
+        elif eq != (True, True, False, True):
+            acc.violation(K % "eq-hash", "%s clone of %s: (clone == orig, orig == clone, clone != orig, hash equal) = %r" % (route, case, eq), dict(case, route=route))
+        else:
+            acc.outcome("clone:%s:%s" % (kind, route))
+
+
+def _py_clone(kind, route, case):
+    if kind != "Interval":
+        return None
+    mk = "pickle.loads(pickle.dumps(iv, %s))" % route.split("-")[1] if route.startswith("pickle") else "%s(iv)" % route
+    ctor = lambda ns: "None" if ns is None else "Instant.from_unix_time_ticks(0).plus_nanoseconds(%d)" % ns  # noqa: E731
+    return ("import copy, pickle\nfrom pyoda_time import Instant, Interval\n\n\ndef test_replay():\n    iv = Interval(%s, %s)\n    c = %s\n    assert c == iv\n"
+            "    assert (c.has_start, c.has_end) == (iv.has_start, iv.has_end)\n    assert tuple(c) == tuple(iv)\n" % (ctor(case.get("start_ns")), ctor(case.get("end_ns")), mk))
+
+
+def w_clones(job):
+    what, tier = job
+    acc = Acc()
+    unsupported = set()
+    shapes = set()
+    if what == "interval":
+        alpha = instant_alphabet(tier)
+        lo, hi = alpha[0], alpha[-1]
+        objs = {ns: mk_instant(ns) for ns in alpha}
+        objs[lo], objs[hi] = Instant.min_value, Instant.max_value
+        for s in [None] + alpha:
+            for e in [None] + alpha:
+                try:
+                    ref.half_open(s, e)
+                except ValueError:
+                    continue
+                shape = ("unbounded-both" if s is None and e is None else "unbounded-start" if s is None else "unbounded-end" if e is None else "empty" if s == e else "bounded")
+                iv = Interval(None if s is None else objs[s], None if e is None else objs[e])
+                shapes.add(("Interval", shape))
+                _compare_clones(acc, "Interval", shape, iv, lambda x: _obs_interval(x, objs, alpha), {"kind": "clone", "what": "interval", "start_ns": s, "end_ns": e}, unsupported)
+        acc.sample({"part": "clones", "type": "Interval", "routes": list(cr.ROUTES), "alphabet_ns": ["None"] + alpha})
+    else:
+        cid = what
+        cal = CalendarSystem.for_id(cid)
+        w, unis = universes(cal, tier)
+        for kind, first in unis[:3] if tier == "quick" else unis[:8]:
+            days = [dl.from_daynum(first + k, cal) for k in range(w)]
+            ivs = {(a, b): DateInterval(days[a], days[b]) for a in range(w) for b in range(a, w)}
+            partners = [ivs[k] for k in ((0, 0), (0, 2), (2, 4), (3, 3), (3, w - 1), (0, w - 1))]
+            for (a, b), iv in ivs.items():
+                shapes.add(("DateInterval", cid, "single" if a == b else "multi"))
+                _compare_clones(acc, "DateInterval", cid, iv, lambda x: _obs_dateinterval(x, days, partners),
+                                {"kind": "clone", "what": cid, "universe": kind, "first_day_number": first, "a": a, "b": b, "interval": _describe(iv)}, unsupported)
+        y = dl.leap_year_near(cal, (cal.min_year + cal.max_year) // 2) or cal.min_year
+        for m in range(1, cal.get_months_in_year(y) + 1):
+            ym = YearMonth(year=y, month=m, calendar=cal)
+            shapes.add(("YearMonth", cid))
+            _compare_clones(acc, "YearMonth", cid, ym, lambda x: {"fields": cr.observe(lambda: (x.year, x.month, x.calendar.id)), "interval": cr.observe(lambda: _describe(x.to_date_interval())),
+                                                                  "hash": cr.observe(lambda: hash(x)), "plus_months": cr.observe(lambda: (x.plus_months(1).year, x.plus_months(1).month)),
+                                                                  "order": cr.observe(lambda: (x < ym, x <= ym, x > ym, x.compare_to(ym)))},
+                            {"kind": "clone", "what": cid, "yearmonth": [y, m]}, unsupported)
+        if cid in ("ISO", "Badi"):
+            acc.sample({"part": "clones", "type": "DateInterval+YearMonth", "calendar": cid, "routes": list(cr.ROUTES), "universes": [u[0] for u in (unis[:3] if tier == "quick" else unis[:8])]})
+    acc.note("classes", sorted("/".join(x) for x in shapes))
+    acc.note("unsupported", sorted(unsupported))
+    return acc
+
+
 # ----------------------------------------------------------------------------------------------- driver
 def run(ctx):
     cals = dl.calendars()
@@ -508,9 +626,23 @@ def run(ctx):
         fin = Acc()
         fin.count(nontrivial=len(classes))      # distinct (calendar, span in days) of the shared field pairs
         ctx.merge_part("cross-calendar", fin)
+    if not only or "clones" in only:
+        classes, unsup = set(), set()
+        for acc in pmap(w_clones, [("interval", ctx.tier)] + [(cals[i][0], ctx.tier) for i in order]):
+            classes |= set(acc.notes.pop("classes", []))
+            unsup |= set(acc.notes.pop("unsupported", []))
+            ctx.merge_part("clones", acc)
+        fin = Acc()
+        fin.count(nontrivial=len(classes))      # distinct (type, shape / calendar) classes cloned
+        ctx.merge_part("clones", fin)
+        for u in sorted(unsup):
+            ctx.degrade("clone route not supported by the type (TypeError), skipped: " + u)
     dl.report_disagreements(ctx, "C18")
     ctx.note("calendars", len(cals))
-    ctx.rule = ("cross-calendar: four histories, each inside ONE process: every ordered pair of 11 (year, month, day) field triples per listed year that are valid "
+    ctx.rule = ("clones: every Interval of the instant alphabet, every DateInterval of three universes per calendar and every YearMonth of a leap year per calendar, "
+                "each cloned by copy.copy, copy.deepcopy and pickle protocols 2-5; the complete observation set (bounds or refusal, duration, iteration, len, membership, "
+                "hash, repr, & | containment with six partner intervals) of the clone must equal the original's; non-trivial = distinct (type, shape / calendar). "
+                "cross-calendar: four histories, each inside ONE process: every ordered pair of 11 (year, month, day) field triples per listed year that are valid "
                 "in 17-18 calendars at once, asked in every calendar in sequence (pair-major forward / reverse, calendar-major, interleaved) - len, days_between both "
                 "ways, membership, iteration, union / intersection / containment - each answer against that calendar's day numbers; non-trivial = distinct (calendar, span). ""dateinterval: per calendar, every window of W consecutive days straddling the range start, the range end and every "
                 "month/year seam of a leap year and the next year (W=7 quick, 9 thorough): all W(W+1)/2 intervals and all ordered pairs; "
@@ -538,6 +670,8 @@ def replay(rec):
         return key in r.violations
     if key.startswith("C18/interval/"):
         return key in w_interval(rec.get("tier", "quick")).violations
+    if key.startswith("C18/clones/"):
+        return key in w_clones((case["what"], rec.get("tier", "quick"))).violations
     if key.startswith("C18/cross-calendar/"):
         return key in w_cross((rec.get("tier", "quick"), case["order"], rec.get("seed", 0))).violations
     if key.startswith("C18/yearmonth/"):
